@@ -38,6 +38,13 @@ def exc_oracle(res, scn, caller_error=False):
                 return
             if caller_error:
                 continue
+            if name == "LocalProtocolError" and "Max outbound streams" in (rec.get("msg") or ""):
+                # root cause shared with KF-C12-2: the client-side stream slot was released
+                # (failed or early-closed stream, or MAX_CONCURRENT_STREAMS=0 ignored) while
+                # h2 still counts the stream as open
+                w.violate("C15", "h2-stream-slot-disagreement-reported-as:LocalProtocolError",
+                          {"msg": rec.get("msg"), "stage": stage})
+                return
             if name in FORBIDDEN_FOR_PEER_FAULT:
                 w.violate("C15", "peer-fault-reported-as:%s@%s" % (name, stage),
                           {"msg": rec.get("msg"), "phase": out.get("failed_phase")})
